@@ -33,6 +33,7 @@ def frame():
     df["xf"] = [2.5, 10.5, 2.5, 0.25, 10.5, 7.0, 0.25, 7.0]
     df["z0"] = [1, 0, -1, 0, 1, -1, 1, 0]  # zero is a level, and not the first one
     df["e0"] = ["b", "", "a", "", "b", "a", "b", ""]
+    df["cu"] = pd.Categorical(df["f"], categories=["a", "d", "b", "c"])  # 'd' is declared but never occurs
     return df
 
 
@@ -43,7 +44,9 @@ def lit(v):
 def cases():
     df = frame()
     out = []
-    for col in ("f", "k", "m", "xf", "o", "g"):
+    out.append({"k": "binary-absent", "col": "cu", "s": "d"})
+    out.append({"k": "binary-absent", "col": "o", "s": "zz"})
+    for col in ("f", "k", "m", "xf", "o", "g", "cu"):
         vals = sorted(set(df[col].tolist()))
         for s in vals:
             for fn in ("binary", "B"):
